@@ -97,11 +97,11 @@ READ_DOMAIN_LEMMAS = ('a2mRead_nd', 'a2mRead_domain_text', 'a2mRead_domain_digit
 
 
 ROUND6_THEOREMS = ('weight_token_wellformed', 'weight_token_value', 'cutoff_token_wellformed', 'cutoff_token_value', 'printed_value_exact',
-                   'printed_value_half_unit', 'weight_token_roundtrip', 'stockholm_seq_order_perm', 'stockholm_gr_order_perm', 'stockholm_seq_order_id', 'stockholm_gr_order_id',
+                   'printed_value_half_unit', 'weight_token_roundtrip', 'cutoff_token_roundtrip', 'weight_token_carried_iff', 'stockholm_seq_order_perm', 'stockholm_gr_order_perm', 'stockholm_seq_order_id', 'stockholm_gr_order_id',
                    'stockholm_roundtrip_mention_partial', 'phylip_header_recognised', 'phylip_autodetect', 'phylip_autodetect_suffix')
 ROUND6_LEMMAS = ('fmtFixed_read', 'fmtFixed_eq', 'wt_line_tokens', 'digitsVal_natDec', 'natDec_length_le', 'decTok_shape', 'fmtF2_fixed', 'fmtF1_fixed',
                  'stoGsReg_cases', 'regRest_perm', 'regNew_ok', 'permList_id', 'guess_phylipWrite', 'phyHeader_first', 'memstrcontains_words',
-                 'stoMention_project', 'stoMentionRoundTrip_of_writable', 'stoGrOrder_id_of_grOrderOk', 'regNew_range', 'filter_downclosed', 'stoProject_congr')
+                 'wgtTokOk_iff', 'cutoff_value_tokens', 'strtodIsMinusOne_neg', 'roundsToOne_hundredths', 'digitsVal_append', 'stoMention_project', 'stoMentionRoundTrip_of_writable', 'stoGrOrder_id_of_grOrderOk', 'regNew_range', 'filter_downclosed', 'stoProject_congr')
 
 
 class C03(Prop):
@@ -156,7 +156,8 @@ class C03(Prop):
                   "two / one fraction digits, one blank-free token esl_mem_IsReal accepts (`weight_token_wellformed`, `cutoff_token_wellformed`); read by an independent decimal parser it has the "
                   "sign bit of the value and denotes `fixedQ mant e prec` units of 10^-prec (`weight_token_value`, `cutoff_token_value`), which is the value scaled by 10^prec exactly for e >= 0 "
                   "and within HALF a unit of the last printed decimal otherwise (`printed_value_exact`, `printed_value_half_unit`); the reader's three esl_memtok calls take the written line "
-                  "'#=GS <name> WT <token>' apart into exactly '#=GS', the name, 'WT' and the printed bytes (`weight_token_roundtrip`). (b) FIRST-MENTION ORDER as a specification: `stoSeqOrder` / "
+                  "'#=GS <name> WT <token>' apart into exactly '#=GS', the name, 'WT' and the printed bytes (`weight_token_roundtrip`); the hypothesis wgtTokOk of stockholm_roundtrip_full holds for EVERY finite weight except those printing as '-1.00', which strtod reads as the reader's "
+                  "'no weight' marker -1.0 (`weight_token_carried_iff`: strtodIsMinusOne evaluated on the printed token). (b) FIRST-MENTION ORDER as a specification: `stoSeqOrder` / "
                   "`stoGrOrder` = the order in which the Stockholm reader numbers sequences / unparsed #=GR tags of write m; permutations for EVERY alignment (`stockholm_seq_order_perm`, "
                   "`stockholm_gr_order_perm`); identity under gsOrderOk / grOrderOk (`stockholm_seq_order_id`, `stockholm_gr_order_id`), where stoMention m projects to m: the full statement "
                   "`StoMentionRoundTrip`: read(write m) = ok(stoProject(stoMention m)) holds wherever the proved round trip does (`stockholm_roundtrip_mention_partial`) and at the "
@@ -577,7 +578,9 @@ class C03(Prop):
             mention = None
             if fmt in ("stockholm", "pfam") and not uniq_forced and dumps:
                 m0 = parse_dump(dumps[0]); mp = self.first_mention(m0)
-                if mp != m0: mention = mp
+                if mp != m0:
+                    mention = mp
+                    g = ctx.stats.setdefault("generator", {}); g["first_mention_region"] = g.get("first_mention_region", 0) + 1
             if t.get("rw") != "same" and not uniq_forced and mention is None: return Failure("monitor", "re-writing the re-read alignment gives different bytes (%s)" % what)
             # esl_msafile_GuessFileFormat documents one way to fail on well-formed PHYLIP: "can't guess format: it's consistent w/ both phylip,
             # phylips" (eslEAMBIGUOUS from esl_msafile_phylip_CheckFileFormat). The harness asks the guesser for its message (awhy=).
